@@ -19,19 +19,19 @@ CHECKS = {
    text="v3 and v5 server: all sequences of up to 4 (quick) / 5 (thorough) requests over {PUBLISH q1, q2, PUBREL, PINGREQ, SUBSCRIBE, UNSUBSCRIBE, AUTH} with publish handler and protocol service each immediately-ready or gated, arrivals one per read or corked into every grouping, completions in every order; after every step the handler-produced responses on the wire must be a prefix of the request order and at the end of healthy runs equal to it.",
    note=A_NOTE, design="4/C04"),
  "C11": dict(engine="simnet", technique=A_TECH,
-   text="All histories of up to 3-5 packets over {PUBLISH q1/q2, SUBSCRIBE, UNSUBSCRIBE, PUBREL} x id {1,2} (clients: QoS 1 + PUBREL) incl. non-initial states, handler/protocol completions placed everywhere, <=1 injection while runnable; exact attribution (payload / filter tags) and a reference in-use set decide: a packet is never delivered while an exchange with its id is open, never refused when its id was acknowledged free, refusals take the version's form, unknown PUBREL is refused.",
+   text="All histories of up to 3-5 packets over {PUBLISH q1/q2, SUBSCRIBE, UNSUBSCRIBE, PUBREL} x id {1,2} (clients: QoS 1 + PUBREL) incl. non-initial states, v5 also with handler errors mapped to negative acknowledgements and a duplicate whose payload arrives in pieces, handler/protocol completions placed everywhere, <=1 injection while runnable; exact attribution (payload / filter tags) and a reference in-use set decide: a packet is never delivered while an exchange with its id is open, never refused when its id was acknowledged free, refusals take the version's form, unknown PUBREL is refused.",
    note=A_NOTE + " PUBREL naming an id held by a non-QoS-2 exchange is outside the statement and not generated.", design="4/C11"),
  "C05": dict(engine="simnet", technique=A_TECH,
    text="All schedules (orders of Start/PeerAck/PeerAckBatch/Cancel/window events at quiescence plus <=1 (quick) / <=2 (thorough) injections while tasks are runnable) of cap+1..cap+2 application tasks using the awaiting send APIs against send limits 1..3 in all four roles; the window invariant is evaluated after every task poll and every event.",
    note=A_NOTE, design="4/C05"),
  "C06": dict(engine="simnet", technique=A_TECH,
-   text="Per role 1-3 application sends (QoS 1 auto / caller-chosen id, QoS 2 with held receipt, client subscribe / unsubscribe) started in every order, interleaved with every peer sequence of up to 2 (quick) / 3 (thorough) acknowledgements over every ack type x id {1,2,5,9}; reference = FIFO of sends awaiting their first ack + set of released QoS 2 ids: a matching ack completes exactly that send with its contents, anything else completes nothing and ends the connection with one protocol-error Stop, never a panic; converse family (correct peer, locally failing sends) and a 66k / 140k-send packet-id wrap-around history per role.",
+   text="Per role 1-3 application sends (QoS 1 auto / caller-chosen id, QoS 2 with held receipt, client subscribe / unsubscribe) started in every order, interleaved with every peer sequence of up to 2 (quick) / 3 (thorough) acknowledgements over every ack type x id {1,2,5,9}; reference = FIFO of sends awaiting their first ack + set of released QoS 2 ids: a matching ack completes exactly that send with its contents, anything else completes nothing and ends the connection with one protocol-error Stop, never a panic; converse family (correct peer, sends that fail locally: over-size, id in use, over-long filter, over-size with a caller-chosen id followed by the same id, streamed publishes whose header cannot be written) where every other send must succeed, and a 66k / 140k-send packet-id wrap-around history per role.",
    note=A_NOTE + " Hostile acks are written at quiescent points; PUBCOMP before the endpoint's PUBREL is outside the statement.", design="4/C06"),
  "C07": dict(engine="simnet", technique=A_TECH + " (fault enumeration: the termination cause is an explorer event, injected at every decision point)",
-   text="Per role four base schedules (two gated publish handlers + gated SUBSCRIBE in flight; a streamed inbound PUBLISH half received with the handler blocked in read(); one send awaiting its ack + one parked on the send window + one ready() future; the inbound stream delivered one byte per write) x ten termination causes (peer close, read error, write error, undecodable bytes, protocol-violating packet, publish-handler error, protocol-handler error, keep-alive expiry on the virtual clock, sink.close(), sink.force_close()) injected before/after every step of the base schedule at quiescence and, with one (quick) / two (thorough) deviations, between any two task polls, for peer close / read error / force-close at every byte offset; oracle: exactly one Stop of the class the statement assigns to the cause, every send/readiness future resolved with an error, blocked payload reader saw an error or was cancelled, handlers cancelled only after the Stop was handled, connection task completes, no panic, nothing left executing after 60 s of virtual time.",
+   text="Per role six base schedules (two gated publish handlers + gated SUBSCRIBE in flight; a streamed inbound PUBLISH half received with the handler blocked in read(); one send awaiting its ack + one parked on the send window + one ready() future; the inbound stream delivered one byte per write; write back-pressure active with a handler in flight; an outbound QoS 1 publish being streamed by the application with a second sender parked behind it) x ten termination causes (peer close, read error, write error, undecodable bytes, protocol-violating packet, publish-handler error, protocol-handler error, keep-alive expiry on the virtual clock, sink.close(), sink.force_close()) injected before/after every step of the base schedule at quiescence and, with one (quick) / two (thorough) deviations, between any two task polls, for peer close / read error / force-close at every byte offset; oracle: exactly one Stop of the class the statement assigns to the cause, every send/readiness future resolved with an error, blocked payload reader saw an error or was cancelled, handlers cancelled only after the Stop was handled, connection task completes, no panic, nothing left executing after 60 s of virtual time.",
    note=A_NOTE, design="4/C07"),
  "C08": dict(engine="simnet", technique=A_TECH,
-   text="Per role 2-3 application operations over {QoS 0/1/2 sends, streamed sends of 6 bytes (exact in one chunk, in two, second chunk one byte too long, half then dropped), subscribe/unsubscribe, sends that fail locally: 65536-byte topic, over the peer's maximum packet size, packet id in use, over-long filter}; every chunk is an explorer event, so other sends, peer acknowledgements, an inbound PINGREQ / QoS 1 PUBLISH (dispatcher response) or an application close() interleave at every position (1 deviation quick, 2 thorough); the full byte stream captured on the peer side is parsed by the independent decoder: whole packets only (truncated tail only as the streamed PUBLISH of an ended connection), Ok <-> exactly one packet, local Err <-> zero bytes, streamed payload = accepted chunks with the declared size.",
+   text="Per role 2-3 application operations over {QoS 0/1/2 sends, QoS 1 through the non-blocking API, streamed sends of 6 bytes (exact in one chunk, in two, second chunk one byte too long, half then dropped), subscribe/unsubscribe, sends that fail locally: 65536-byte topic, over the peer's maximum packet size, packet id in use, over-long filter}; every chunk is an explorer event, so other sends, peer acknowledgements, an inbound PINGREQ / QoS 1 PUBLISH (dispatcher response) or an application close() interleave at every position (1 deviation quick, 2 thorough); the full byte stream captured on the peer side is parsed by the independent decoder: whole packets only (truncated tail only as the streamed PUBLISH of an ended connection), Ok <-> exactly one packet, local Err <-> zero bytes, streamed payload = accepted chunks with the declared size.",
    note=A_NOTE, design="4/C08"),
  "C09": dict(engine="enum", technique=B_TECH,
    text="~1500 v5 packet values weighted to shortenable packets x every outbound limit 0..160 (quick) / 0..720 (thorough) plus boundary grid x problem-information on/off, plus values whose encoding must fail and all v3 generator values; oracle: one reference frame, truthful length, within limit, only whole Reason String / User Properties dropped, failed encode leaves zero bytes, no panic.",
@@ -61,10 +61,10 @@ CHECKS = {
    text="Codec part: streams of valid packets with payload sizes around chunk/varint boundaries, all 2^(n-1) fragmentations up to 11/14 bytes and every single/double cut and fixed chunk size beyond, x min_chunk_size {0,1,4,1024,32768}, compared with the reference parse of the unfragmented stream.",
    note="Trusts refmqtt.rs. Connection part not built yet in this revision.", design="4/C10"),
  "C12": dict(engine="simnet", technique=A_TECH,
-   text="v3 server (default in-flight middleware), v5 server (Receive Maximum + size middleware) and v5 client: max_receive {1,2}/{0..3} x max_receive_size {0, 30 B, 64 KiB}; bursts of up to 3/4 publishes incl. one delivered in pieces against gated handlers, deliveries and completions in every order with <=1 injection; invariants after every step (executing handlers <= max_receive, bytes <= max_receive_size + largest packet), 0x93 never for a peer within quota, and after the drain every complete publish was handled with its full payload.",
-   note=A_NOTE + " One known finding (C12-3: limit overshoot by one right after a streamed payload on the v3 server).", design="4/C12"),
+   text="v3 server (default in-flight middleware), v5 server (Receive Maximum + size middleware) and v5 client: max_receive {1,2}/{0..3} x max_receive_size {0, 30 B, 64 KiB}; bursts of up to 3/4 publishes incl. one delivered in pieces against gated handlers, v5 server also with gated SUBSCRIBE / UNSUBSCRIBE in flight, v3 server also with 4-5 publishes arriving in one read; deliveries and completions in every order with <=1 injection; invariants after every step (executing handlers <= max_receive, bytes <= max_receive_size + largest packet), 0x93 never for a peer within quota, and after the drain every complete publish was handled with its full payload.",
+   note=A_NOTE + " Known findings C12-3 (limit overshoot by one right after a streamed payload on the v3 server) and C12-5 (overshoot on a burst in one read).", design="4/C12"),
  "C13": dict(engine="simnet", technique=A_TECH,
-   text="Same world as C05 plus readiness futures, cancellation of parked tasks and back-pressure episodes; liveness is judged at quiescence after the correct peer has acknowledged everything it received: every non-cancelled send/ready future must have completed and the connection must be up.",
+   text="Same world as C05 plus readiness futures, cancellation of parked tasks, senders that fail locally after being woken, and back-pressure episodes that really engage the library's back-pressure state (a 24-byte QoS 0 publish over the 16-byte write buffer first), also with a streamed publish waiting on it; liveness is judged at quiescence after the correct peer has acknowledged everything it received: every non-cancelled send/ready future must have completed and the connection must be up.",
    note=A_NOTE + " Cancellation is applied to waiting (parked) futures only, as in the statement.", design="4/C13"),
  "C14": dict(engine="simnet", technique=A_TECH,
    text="Per role 2-4 concurrent send_exactly_once (receipts held until the explorer releases or drops them, plus immediate release / drop variants, optional QoS 1 send in between, send limits 8 and 2), peer acknowledging in arrival order singly or batched, Release/DropReceipt in every order, <=1 (quick) / <=2 (thorough) injections: each send resolves with its own PUBREC, each release or drop writes exactly one PUBREL with its own id and none while held, release() completes exactly when its own PUBCOMP was delivered.",
